@@ -1032,6 +1032,16 @@ def bounded(tier, seed):
     for s in [b'{"log": {"entries": []}}', b'{"log": {"entries": [{}]}}', b"{", b"\xef\xbb\xbf{}", b'{"log": 1}', b"\xef\xbb\xbf", b"[]", b"{}" * 5]:
         b.case(("json", s), nontrivial=True)
         read_check(s, "json-looking")
+    # deeply nested containers (the tnetstring reader recurses once per level: RecursionError escaped before c8bc48040)
+    def nested(n, close, tail=b""):
+        s_ = tail
+        for _ in range(n):
+            s_ = b"%d:%s%s" % (len(s_), s_, close)
+        return s_
+    for n in (50, 900, 1100, 3000, 20000):
+        for close in (b"]", b"}"):
+            b.case(("nested", n, close), nontrivial=True)
+            read_check(nested(n, close), f"{n}-deep nested {'list' if close == b']' else 'dict'}")
     valid = {k: ioflows.encode_flows([ioflows.mk_flow(k)])[0] for k in ioflows.FLOW_KINDS}
     per = 300 if tier == "quick" else 9000
     for k, data in valid.items():
